@@ -30,10 +30,11 @@ def large_tasks(rng, quick):
     """Sequential large-N cases around the ZipTuple class boundary (19 / 20 / 21) and ~200 inputs: completion
     orders forward / reverse / shuffled, a failure or cancellation in the middle, a repeated input."""
     tasks = []
-    sizes = [19, 20, 21, 200] if quick else [19, 20, 21, 64, 200, 1000]
+    # (counts just above a round number too: any slicing of a long input list must keep its incomplete last slice)
+    sizes = [19, 20, 21, 200, 1001] if quick else [19, 20, 21, 64, 200, 1000, 1001, 1500, 2345]
     for n in sizes:
-        for op in (("zip", "sequence") if n in (21, 200, 1000) else ("zip",)):
-            for variant in ("fwd", "rev", "shuffle", "fail", "dup"):
+        for op in (("sequence", "traverse") if n > 1000 else ("zip", "sequence") if n in (21, 200, 1000) else ("zip",)):
+            for variant in (("fwd", "fail") if n > 1000 else ("fwd", "rev", "shuffle", "fail", "dup")):
                 inputs = [{"kind": rng.choice([1, 1, 2])} for _ in range(n)]
                 ids = list(range(1, n + 1))
                 pos = list(ids)
@@ -45,7 +46,7 @@ def large_tasks(rng, quick):
                     order = ids[:]
                     rng.shuffle(order)
                 if variant == "fail":
-                    bad = order[n // 2]
+                    bad = order[n // 2] if n <= 1000 else order[-1]      # (in the last, incomplete slice)
                     inputs[bad - 1]["kind"] = 3 if op == "zip" else rng.choice([3, 3, 4])
                 if variant == "dup":
                     pos[rng.randrange(n)] = pos[0]
@@ -55,6 +56,19 @@ def large_tasks(rng, quick):
                 tasks.append({"scen": "combinators", "params": p, "strat": ["first"], "gran": "sync",
                               "facts": dict(c14.facts(p), large=n)})
     return tasks
+
+
+def cancel_sweep_tasks(quick):
+    """The output is cancelled by a client while another thread completes an input successfully: the completion lands at
+    every point of the cancel's fan-out; a third input stays pending and must still be asked to cancel."""
+    from .. import core as _core
+    out = []
+    for op in ("zip", "sequence"):
+        params = {"op": op, "inputs": [{"kind": 0}, {"kind": 1, "at": 100}, {"kind": 0}, {"kind": 1, "at": 300}],
+                  "cancel_at": 100, "horizon": 800}
+        out += _core.phase_tasks("combinators", params, [("can1", "comp2")], range(1, 40, 2 if quick else 1), [10000],
+                                 facts={"op": op})
+    return out
 
 
 def run(ck):
@@ -99,6 +113,7 @@ def run(ck):
             swept += _core.phase_tasks("combinators", params, [("comp1", "comp2"), ("comp2", "comp1")],
                                        range(2, 40, 2 if quick else 1), [10000] if quick else [10000, 5, 10, 20],
                                        facts={"op": op})
+    swept += cancel_sweep_tasks(quick)
     ck.run_and_validate(swept, TRACE, nontrivial=lambda t, r: True)
     ck.assumptions += [
         "a completion linearises between its InputSetCall and InputSetRet, and for the combinator not before "
